@@ -97,6 +97,9 @@ func initArrayTuple() {
 		func(vm *Thread, args []value.Value) (value.Value, value.Value) {
 			self := args[0].AsReference().(value.ArrayTuple)
 			switch other := args[1].SafeAsReference().(type) {
+			case value.ArrayList:
+				// lists implement the tuple interface but are not tuples: `==` is strict, `=~` is the lax comparison
+				return value.False.ToValue(), value.Undefined
 			case value.ArrayTuple:
 				equal, err := ArrayTupleEqual(vm, self, other)
 				if !err.IsUndefined() {
